@@ -373,7 +373,8 @@ func runC08(r *vhlib.Run) {
 	self, _ := os.Executable()
 	for codecName, idxs := range byCodec {
 		pos := 0
-		for pos < len(idxs) {
+		hangs := 0
+		for pos < len(idxs) && hangs < 2 { // two inputs that hang are reported; the rest of that codec's list is skipped
 			var stdin bytes.Buffer
 			for _, i := range idxs[pos:] {
 				fmt.Fprintf(&stdin, "%d %s %s\n", i, codecName, vhlib.Hex(inputs[i].Data))
@@ -442,6 +443,7 @@ func runC08(r *vhlib.Run) {
 				what := "child-killed"
 				if timedOut {
 					what = "hang-or-too-slow"
+					hangs++
 				}
 				r.Eval(in.Codec+":"+in.Kind, true, in.Data)
 				r.Violate(what, fmt.Sprintf("%s %s (%d bytes): child exit=%v stderr=%.300s", in.Codec, in.Kind, len(in.Data), werr, errb.String()), replay)
